@@ -43,7 +43,7 @@ func (h *Hist) Return(op *HOp, out any) {
 	op.Pending = false
 }
 
-func (h *Hist) Now() int64 { return h.clock }
+func (h *Hist) Now() int64  { return h.clock }
 func (h *Hist) Tick() int64 { h.clock++; return h.clock }
 
 func (h *Hist) Ops() []*HOp { return h.ops }
